@@ -984,6 +984,10 @@ func c06Phout(c *Ctx) {
 				okF := false
 				if sb != nil && sb.Kind == "int" {
 					for _, r := range Roots(sb.V, false) {
+						// s.get(i): a method of Sample that returns s.fields[<its parameter>]
+						if cl, _ := CallOfValue(r); cl != nil && isFieldsGetter(cl.Call.StaticCallee()) {
+							okF = true
+						}
 						if ix, ok := r.(*ssa.Index); ok {
 							if isFieldOfS(ix.X, "fields") {
 								okF = true
@@ -1073,6 +1077,10 @@ func c06Phout(c *Ctx) {
 						indexes = indexes || x.Index == idx
 					case *ssa.IndexAddr:
 						indexes = indexes || x.Index == idx
+					case *ssa.Call:
+						if isFieldsGetter(x.Call.StaticCallee()) && len(x.Call.Args) == 2 && x.Call.Args[1] == idx {
+							indexes = true
+						}
 					}
 				}
 				if tested && indexes {
@@ -1182,6 +1190,34 @@ func c06Phout(c *Ctx) {
 					}
 					okShift = initOK && stepOK && guardOK
 				}
+			}
+		})
+		// the same shift written as an overlapping copy: copy(dst[dot+1:], dst[dot:]) with dot = len(dst) - 3
+		EachInstr(at, func(in ssa.Instruction) {
+			cl, ok := in.(*ssa.Call)
+			if !ok || !IsBuiltinCall(cl, "copy") || len(cl.Call.Args) != 2 {
+				return
+			}
+			d, ok1 := cl.Call.Args[0].(*ssa.Slice)
+			sr, ok2 := cl.Call.Args[1].(*ssa.Slice)
+			if !ok1 || !ok2 || d.X != sr.X || d.High != nil || sr.High != nil || sr.Low == nil {
+				return
+			}
+			isDot := func(v ssa.Value) bool {
+				b3, ok := v.(*ssa.BinOp)
+				if !ok || b3.Op != token.SUB {
+					return false
+				}
+				k3, isK3 := ConstInt(b3.Y)
+				lc, isL := b3.X.(*ssa.Call)
+				return isK3 && k3 == 3 && isL && IsBuiltinCall(lc, "len")
+			}
+			lo, ok := d.Low.(*ssa.BinOp)
+			if !ok || lo.Op != token.ADD || lo.X != sr.Low || !isDot(sr.Low) {
+				return
+			}
+			if k, isK := ConstInt(lo.Y); isK && k == 1 {
+				okShift = true
 			}
 		})
 		c.Check(okShift, "O6.5", key+":last-three-digits-shifted-right", at.Pos(), "the three millisecond digits must be shifted right by one (dst[i] = dst[i-1] for i = len-1 down to dotIndex+1) before the '.' is stored")
@@ -1631,4 +1667,45 @@ func c06CLI(c *Ctx) {
 			c.Check(okW, "O6.7", fmt.Sprintf("%s:exit-after-engine-error-awaits-engine-tasks#%d", key, nE), in.Pos(), "the exit after an engine error must come after Engine.Wait() (the timeout exit lives in a time.AfterFunc closure)")
 		}
 	}
+}
+
+
+// isFieldsGetter: a method of netsample.Sample whose every return is s.fields[<its one parameter>].
+func isFieldsGetter(fn *ssa.Function) bool {
+	if fn == nil || len(fn.Blocks) == 0 || len(fn.Params) != 2 || fn.Signature.Recv() == nil {
+		return false
+	}
+	if _, n := NamedOf(fn.Params[0].Type()); n != "Sample" {
+		return false
+	}
+	n, all := 0, true
+	EachInstr(fn, func(in ssa.Instruction) {
+		ret, ok := in.(*ssa.Return)
+		if !ok || len(ret.Results) != 1 {
+			return
+		}
+		n++
+		okRet := false
+		for _, r := range Roots(ret.Results[0], false) {
+			if u, ok := r.(*ssa.UnOp); ok && u.Op == token.MUL {
+				if ia, ok := u.X.(*ssa.IndexAddr); ok && ia.Index == ssa.Value(fn.Params[1]) {
+					if fv, _ := FieldOf(ia.X); fv != nil && fv.Name() == "fields" {
+						okRet = true
+					}
+					if fa, ok := ia.X.(*ssa.FieldAddr); ok {
+						if fv, _ := FieldOf(fa); fv != nil && fv.Name() == "fields" {
+							okRet = true
+						}
+					}
+				}
+			}
+			if ix, ok := r.(*ssa.Index); ok && ix.Index == ssa.Value(fn.Params[1]) {
+				okRet = true
+			}
+		}
+		if !okRet {
+			all = false
+		}
+	})
+	return n > 0 && all
 }
